@@ -912,3 +912,35 @@ def c01_r8(ctx):
         m, probs = bind_args(calls[0], cls.methods["__init__"])
         ok = bool(m) and not probs and norm.deep_canon(m.get("is_deleted"), nm.node).endswith(".is_deleted")
     ctx.ob(nm, ok, "NestedChildren.matcher passes the reader's is_deleted to the child matcher")
+
+
+@rule("C01", "R9", "K6", "a fielded query that turns itself into Every keeps its field",
+      min_instances=4, also=("C15",),
+      clause="Prefix(''), Wildcard('*'), Regex('.*') and an open-ended TermRange take the shortcut `Every(self.fieldname, ...)`: every "
+             "Every(...) built inside a method of a query class that has a fieldname binds Every's fieldname parameter to self.fieldname. "
+             "Every() without a field matches every live document, a fielded Every only the documents that have a term in the field.")
+def c01_r9(ctx):
+    from .common import bound_arg
+    prog = ctx.prog
+    Q = prog.cls("query.qcore.Query")
+    n = 0
+    for K in prog.subclasses(Q, strict=True):
+        init = prog.lookup(K, "__init__")
+        if init is None or "fieldname" not in init.params:
+            continue
+        for name, f in sorted(K.methods.items()):
+            for c in norm.calls_in(f.node):
+                if norm.call_name(c) != "Every":
+                    continue
+                n += 1
+                ctx.saw(f)
+                a = c.args[0] if c.args else None
+                for k in c.keywords:
+                    if k.arg == "fieldname":
+                        a = k.value
+                t = norm.deep_canon(a, f.node) if a is not None else None
+                ctx.ob(f, t == "self.fieldname", "Every(...) built by %s.%s keeps the query's field" % (K.name, name),
+                       detail="fieldname bound to %s: the rewritten query matches documents that have nothing in the field" % t if t != "self.fieldname" else "",
+                       loc=ctx.nodeloc(f, c))
+    if n < 4:
+        raise AnalysisError("only %d Every(...) shortcuts found in fielded query classes" % n)
